@@ -33,7 +33,7 @@ MAXV = 18          # complete truth tables up to this many variables
 SAMPLES = 192      # sampled assignments above
 
 RULE = ("per family and formula class (CNF, OPB): all parameter tuples in a small box exhaustively "
-        "(php 0..8 x flags, binary 1..8 x 1..9, relativized/clique-colouring 0..4 (0..5 thorough), counting M 0..8 p 1..9), "
+        "(php 0..8 x flags, binary 1..8 x 1..9, relativized 0..4 (0..7 thorough), clique-colouring 0..4 (0..6 thorough), counting M 0..8 p 1..9), "
         "random parameters up to 60 with bounded formula size, illegal parameters (negative, zero where positive is required); "
         "bipartite and simple graphs from shape generators (empty graph, empty sides, isolated vertices, complete, "
         "matchings, stars, paths, cycles, sparse/dense random, 10-16 vertices) with shuffled edge insertion order; "
@@ -548,7 +548,7 @@ def small_infos(suite, rng, tier):
                     if m * (n - 1).bit_length() <= 40 and (m <= 6 or n <= 9):
                         out.append(dict(m=m, n=n, opb=opb))
         elif suite == "rphp":
-            top = 6 if big else 5
+            top = 8 if big else 5
             for m in range(0, top):
                 for r in range(0, top):
                     for n in range(0, top):
@@ -558,13 +558,13 @@ def small_infos(suite, rng, tier):
                 for p in range(1, 10):
                     out.append(dict(M=M, p=p, opb=opb))
         elif suite == "cliquecol":
-            top = 6 if big else 5
+            top = 7 if big else 5
             for n in range(0, top):
                 for k in range(0, top):
                     for c in range(0, top):
                         out.append(dict(n=n, k=k, c=c, opb=opb))
         elif suite in ("gphp", "subsetcard"):
-            top = 5 if big else 4
+            top = 6 if big else 4
             for l in range(0, top):
                 for r in range(0, top):
                     for name, es in bip_shapes(rng, l, r):
@@ -576,7 +576,7 @@ def small_infos(suite, rng, tier):
                             for eq in (0, 1):
                                 out.append(dict(l=l, r=r, edges=es, eq=eq, opb=opb, shape=name))
         elif suite == "pmatch":
-            for n in range(0, 8 if big else 7):
+            for n in range(0, 10 if big else 7):
                 for name, es in graph_shapes(rng, n):
                     out.append(dict(n=n, edges=es, opb=opb, shape=name))
     return out
@@ -584,7 +584,7 @@ def small_infos(suite, rng, tier):
 
 def random_infos(rng, tier):
     out = []
-    reps = 12 if tier == "quick" else 80
+    reps = 60 if tier == "quick" else 500
     for _ in range(reps):
         opb = rng.random() < 0.5
         # closed-form families, parameters up to 60 with bounded size
@@ -689,18 +689,27 @@ def cases(ctx):
         yield c
 
 
+_SEARCHED = {}
+
+
 def search(ctx, case):
     """the correspondence broke on `case`: look for an input on which the PROPERTY fails,
-    first on the case itself, then in the exhaustive small box of the same family"""
+    first on the case itself, then in the exhaustive small box of the same family
+    (the box is searched once per family and run)"""
     r = common.run_oracle(case)
     if r is not None:
         return {"suite": case.suite, "info": case.info, "failure": r}
+    key = (case.suite, ctx["seed"])
+    if key in _SEARCHED:
+        return _SEARCHED[key]
+    _SEARCHED[key] = None
     rng = common.sub_rng(ctx["seed"], "C01-search")
     for info in small_infos(case.suite, rng, "thorough"):
         c = build(case.suite, info)
         r = common.run_oracle(c)
         if r is not None:
-            return {"suite": case.suite, "info": info, "req": c.req, "failure": r}
+            _SEARCHED[key] = {"suite": case.suite, "info": info, "req": c.req, "failure": r}
+            return _SEARCHED[key]
     return None
 
 
